@@ -13,7 +13,7 @@ from gaddlemaps.parsers import read_topology
 PROPERTY = "C15"
 LEVEL = "exploration"
 RULE = ("generated .itp texts: 1..60 atoms (quick) / ..400 (thorough) plus chains and stars of 1500 and 3000 atoms; "
-        "trees, chains, stars, forests, cyclic graphs, duplicated bonds; strictly increasing atom numbers with random "
+        "trees, chains, stars, forests, cyclic graphs, disconnected graphs with rings (bond count n-1 or more), duplicated bonds; strictly increasing atom numbers with random "
         "start and gaps; bonds spread over [bonds]/[constraints]/[pairs], possibly with one of them occurring twice; "
         "bond lines with 2..6 fields; comment, blank, #include/#ifdef/#endif lines, trailing comments (also comments that "
         "contain bracketed words such as '; b0 [nm]' or ';[ bonds ]'), tabs and "
@@ -118,7 +118,7 @@ def case_strategy(draw, tier, with_variant=False):
         kind = draw(st.sampled_from(["chain", "chain-sorted", "star"]))
     else:
         n = draw(st.integers(1, 400 if tier == "thorough" else 60))
-        kind = draw(st.sampled_from(["tree", "tree", "chain", "star", "forest", "cyclic", "empty"]))
+        kind = draw(st.sampled_from(["tree", "tree", "chain", "star", "forest", "cyclic", "empty", "ring-forest", "ring-forest"]))
     rng = np.random.default_rng(draw(gen.SEEDS))
     if kind == "chain-sorted":
         edges = [[k, k + 1] for k in range(n - 1)]
